@@ -823,3 +823,97 @@ Proof. constructor; cbn; auto; [apply Inv0 | intros g [] | intros t []]. Qed.
 (* C18: outside the sharing class the model delivers exactly like the live-subscription specification *)
 Theorem live_ok : forall h, finding_C18_a h = false -> run_hist h = spec_hist h.
 Proof. intros h H. unfold run_hist, spec_hist. eapply run_from_sim; [apply RelBt0 | exact H]. Qed.
+
+(* ------------------------------------------------------------------ the specification says what C18 says *)
+
+Definition unsub_free (t : nat) (plan : list pmsg) : Prop := forall u, In (PUnsub u) plan -> u <> t.
+
+Lemma sp_subscribe_live : forall s f n tmp,
+  (forall x, In x (live (fst (sp_subscribe s f n tmp))) -> In x (live s) \/ s_temp x = tmp) /\
+  (forall x, In x (live s) -> In x (live (fst (sp_subscribe s f n tmp)))).
+Proof.
+  intros s f n tmp. destruct n; cbn; split; intros x Hx; auto.
+  - apply in_app_or in Hx as [Hx|[<-|[]]]; auto.
+  - apply in_or_app; now left.
+  - apply in_app_or in Hx as [Hx|[<-|[]]]; auto.
+  - apply in_or_app; now left.
+Qed.
+
+Lemma sp_subscribe_temps_live : forall l s,
+  (forall x, In x (live (sp_subscribe_temps s l)) -> In x (live s) \/ s_temp x = true) /\
+  (forall x, In x (live s) -> In x (live (sp_subscribe_temps s l))).
+Proof.
+  induction l as [|[n f] l IH]; intros s; cbn [sp_subscribe_temps]; [split; auto|].
+  destruct (IH (fst (sp_subscribe s f n true))) as [H1 H2].
+  destruct (sp_subscribe_live s f n true) as [K1 K2]. split; intros x Hx.
+  - apply H1 in Hx as [Hx|Hx]; [apply K1 in Hx; tauto | now right].
+  - apply H2, K2, Hx.
+Qed.
+
+Lemma sp_run_plan_live : forall plan s c ems toks,
+  let s' := fst (fst (fst (fst (sp_run_plan s c plan ems toks)))) in
+  (forall x, In x (live s') -> In x (live s) \/ s_temp x = true) /\
+  (forall x, In x (live s) -> unsub_free (s_tok x) plan -> In x (live s')).
+Proof.
+  induction plan as [|m plan IH]; intros s c ems toks; [cbn; split; auto|].
+  assert (Hdata : forall a,
+    let s' := fst (fst (fst (fst (match a with
+        | ASkip => sp_run_plan s c plan ems toks
+        | AIllegal => (s, c, ems, toks, Some ExIllegal)
+        | AEmit during ds after =>
+            match emit_all (sp_process s) ds with
+            | (es, None) => sp_run_plan s after plan (ems ++ es) toks
+            | (es, Some e) => (s, during, ems ++ es, toks, Some e)
+            end
+        end)))) in
+    (forall x, In x (live s') -> In x (live s) \/ s_temp x = true) /\
+    (forall x, In x (live s) -> unsub_free (s_tok x) (m :: plan) -> In x (live s'))).
+  { intros a. assert (Hfree : forall t, unsub_free t (m :: plan) -> unsub_free t plan)
+      by (intros t H u Hu; apply H; now right).
+    destruct a as [during ds after| |].
+    - destruct (emit_all (sp_process s) ds) as [es [e|]]; cbn.
+      + split; auto.
+      + destruct (IH s after (ems ++ es) toks) as [H1 H2]. split; [exact H1 | intros x Hx Hf; apply H2; auto].
+    - cbn; split; auto.
+    - destruct (IH s c ems toks) as [H1 H2]. split; [exact H1 | intros x Hx Hf; apply H2; auto]. }
+  destruct m; cbn [sp_run_plan]; try apply Hdata.
+  - (* PSub *)
+    destruct (sp_subscribe_live s f n true) as [K1 K2].
+    destruct (sp_subscribe s f n true) as [s1 [t|]] eqn:E; cbn [fst] in *.
+    + destruct (IH s1 c ems (toks ++ [t])) as [H1 H2]. split; intros x Hx.
+      * apply H1 in Hx as [Hx|Hx]; [apply K1 in Hx; tauto | now right].
+      * intros Hf. apply H2; [now apply K2 | intros u Hu; apply Hf; now right].
+    + cbn. split; [exact K1 | intros x Hx _; now apply K2].
+  - (* PUnsub *)
+    assert (K1 : forall x, In x (live (sp_unsubscribe s t)) -> In x (live s))
+      by (intros x Hx; cbn in Hx; apply filter_In in Hx; tauto).
+    assert (K2 : forall x, In x (live s) -> s_tok x <> t -> In x (live (sp_unsubscribe s t))).
+    { intros x Hx Hn. cbn. apply filter_In; split; [exact Hx|]. now apply negb_true_iff, Nat.eqb_neq. }
+    destruct (existsb _ (live s)).
+    + destruct (IH (sp_unsubscribe s t) c ems toks) as [H1 H2]. split; intros x Hx.
+      * apply H1 in Hx as [Hx|Hx]; [left; now apply K1 | now right].
+      * intros Hf. apply H2; [apply K2; [exact Hx | intros E; apply (Hf t); [now left | now symmetry]]
+                             | intros u Hu; apply Hf; now right].
+    + cbn. split; [intros x Hx; left; now apply K1|].
+      intros x Hx Hf. apply K2; [exact Hx | intros E; apply (Hf t); [now left | now symmetry]].
+Qed.
+
+(* temporary subscriptions never outlive their call; nothing made inside the call does;
+   a permanent subscription survives the call unless the plan unsubscribes its own token *)
+Theorem spec_call_keeps_and_drops : forall s subs plan,
+  (forall x, In x (live s) -> s_temp x = false) ->          (* between calls *)
+  let s' := fst (sp_run_call s subs plan) in
+  (forall x, In x (live s') -> s_temp x = false /\ In x (live s)) /\
+  (forall x, In x (live s) -> unsub_free (s_tok x) plan -> In x (live s')).
+Proof.
+  intros s subs plan Hbt. unfold sp_run_call. destruct (normalize_subs subs) as [l|].
+  - destruct (sp_subscribe_temps_live l s) as [A1 A2].
+    pose proof (sp_run_plan_live plan (sp_subscribe_temps s l) cstate0 [] []) as [B1 B2].
+    destruct (sp_run_plan (sp_subscribe_temps s l) cstate0 plan [] []) as [[[[s3 c] ems] toks] x]. cbn [fst] in *.
+    destruct (emit_all (sp_process s3) _) as [es y]. cbn [fst sp_end_call live].
+    split; intros x0 Hx.
+    + apply filter_In in Hx as [Hx Ht]. apply negb_true_iff in Ht. split; [exact Ht|].
+      apply B1 in Hx as [Hx|Hx]; [|congruence]. apply A1 in Hx as [Hx|Hx]; [exact Hx | congruence].
+    + intros Hf. apply filter_In. split; [apply B2; [now apply A2 | exact Hf] | now rewrite (Hbt x0 Hx)].
+  - cbn. split; auto.
+Qed.
